@@ -70,6 +70,7 @@ def check_property(pid, tier="quick", seed=0):
     t0 = time.time()
     extract.ensure_path()  # candidate generators use the working tree's tables
     mod = importlib.import_module(f"props.{pid}")
+    os.environ["PYVC_PROPERTY"] = pid  # replay searches may use clauses that only this property states
     units = mod.units(tier)
     # Soundness precondition of the modular argument, checked on every run of every property: each function is verified against
     # fresh objects, which speaks for all histories only if nothing in the code modules is shared between objects or calls
